@@ -385,3 +385,4 @@ C.assume('Contextual functions are pure and deterministic functions of (indent, 
          'returning a document whose size is bounded by a ghost weight (lemma_apply_ctx, trusted)')
 
 from . import layout_den  # noqa: E402,F401  (den, best_layout)
+from . import layout_c05  # noqa: E402,F401  (C05: the fitting walk bounds the first line)
